@@ -5,6 +5,7 @@
 package c11
 
 import (
+	"encoding/json"
 	"fmt"
 	"net"
 	"strings"
@@ -44,7 +45,8 @@ func init() {
 			}
 			return []fw.ChildSpec{{Name: "hist", Mode: "hist", Shards: 4, Timeout: 10 * time.Minute}}
 		},
-		Run: run,
+		Run:    run,
+		Replay: replay,
 	})
 }
 
@@ -592,4 +594,28 @@ func limit(c *fw.Ctx, canary *oracle.Canary, h *History) {
 	hmods.SelectLog(sel)
 	c.Obs("held_connections", int64(len(heldA)))
 	c.Case(fw.Hash("limit", h.Max, h.Via, outcomes), true, func() any { return map[string]any{"history": h, "outcomes": outcomes} })
+}
+
+
+func replay(c *fw.Ctx, raw json.RawMessage) {
+	var w struct {
+		History *History `json:"history"`
+	}
+	if err := json.Unmarshal(raw, &w); err != nil || w.History == nil {
+		fmt.Println("replay: cannot decode history:", err)
+		return
+	}
+	hmods.Quiet(c.OutDir + "/caddyhome")
+	canary := oracle.StartCanary()
+	defer canary.Stop()
+	switch h := w.History; h.Kind {
+	case "passive":
+		passive(c, canary, h)
+	case "retry", "retry-recover":
+		retry(c, canary, h)
+	case "active":
+		active(c, canary, h)
+	case "limit":
+		limit(c, canary, h)
+	}
 }
